@@ -26,14 +26,18 @@ def Val.rank : Val → Nat
   | .tuple _ => 7
 
 /-- numeric key of a cell within its type: `(0, q)` for the finite float `q/4` (ints are cast
-to float first), `(1, 0)` for NaN, +inf and -inf (`is_nan` is true of all three and `cmp`
-maps them to `np.inf`); bools as 0/1; datetimes as their microsecond count. -/
+to float first), `(-1, 0)` for -inf, `(1, 0)` for +inf (native float order) and `(2, 0)` for NaN,
+which `cmp` ranks equal to NaN and above every other float (repaired code: the pinned tree mapped
+NaN, +inf and -inf all to `np.inf`, so that `cmp(-inf, 1) == 1` while native `sorted` puts -inf
+first — finding F1b of C02); bools as 0/1; datetimes as their microsecond count. -/
 def Cell.num : Cell → Int × Int
   | .bool b => (0, b.toNat)
   | .dt us => (0, us)
   | .int n => (0, 4 * n)
   | .flt q => (0, q)
-  | .nan | .pinf | .ninf => (1, 0)
+  | .ninf => (-1, 0)
+  | .pinf => (1, 0)
+  | .nan => (2, 0)
   | .none | .str _ => (0, 0)
 
 def Cell.skey : Cell → String
